@@ -216,7 +216,9 @@ pub fn c13(c: &Case, rep: &mut Report) {
             }
         }
     }
-    for label in ["emit", "gc"] {
+    // "addimp": one import of each kind was added through the API (named wv_added_*): every index space is
+    // renumbered, the input's names must follow their entities
+    for label in ["emit", "gc", "addimp"] {
         let out = match end.get(&format!("out.{}", label)) {
             Some(o) => o,
             None => continue,
@@ -228,6 +230,9 @@ pub fn c13(c: &Case, rep: &mut Report) {
                 continue;
             }
         };
+        if label == "addimp" {
+            rep.count("outputs-with-imports-added-through-the-api", 1);
+        }
         let nout = match names_of(&dout) {
             Ok(Some(n)) => n,
             Ok(None) => Names::default(),
@@ -238,7 +243,7 @@ pub fn c13(c: &Case, rep: &mut Report) {
         };
         let keep = if label == "gc" { Some(reach(&din, &ExtraRoots::default()).keep) } else { None };
         let r = iso::compare(&din, &dout, keep.as_ref());
-        if r.problems.iter().any(|p| !p.sig.ends_with("-added")) {
+        if r.problems.iter().any(|p| !p.sig.ends_with("-added") && !(label == "addimp" && p.sig == "import-name-or-order-differs")) {
             // structure itself is off: C03/C04/C06 report that; names cannot be judged against a broken bijection
             rep.inconclusive(c, "bijection-unavailable(reported by C03/C04/C06)");
             continue;
@@ -283,7 +288,10 @@ pub fn c13(c: &Case, rep: &mut Report) {
                         }
                     }
                     None => {
-                        rep.violation(c, &format!("C13/{}-name-on-unpaired-entity", kind), &format!("{}: {} out#{} carries {:?} but corresponds to no input entity", label, kind, j, m), &blob);
+                        // the imports the harness added carry the names it gave them
+                        if !(label == "addimp" && m.starts_with("wv_added_")) {
+                            rep.violation(c, &format!("C13/{}-name-on-unpaired-entity", kind), &format!("{}: {} out#{} carries {:?} but corresponds to no input entity", label, kind, j, m), &blob);
+                        }
                     }
                 }
             }
